@@ -54,7 +54,10 @@ def lattice(res, rows):
 CFGS = [("ias15", {}), ("bs", {}), ("whfast", {}), ("whfast", {"safe_mode": 0, "corrector": 11}), ("whfast", {"coordinates": "democraticheliocentric"}),
         ("whfast", {"coordinates": "whds"}), ("whfast", {"coordinates": "barycentric", "safe_mode": 0}), ("whfast", {"kernel": "lazy", "corrector": 17}),
         ("saba", {}), ("saba", {"type": "cl4", "safe_mode": 0}), ("eos", {}), ("eos", {"phi0": "pmlf6", "phi1": "lf4", "safe_mode": 0}), ("leapfrog", {}), ("janus", {}),
-        ("mercurius", {}), ("mercurius", {"safe_mode": 0}), ("trace", {"peri_mode": "FULL_BS"}), ("trace", {"peri_mode": "PARTIAL_BS"}), ("trace", {"peri_mode": "FULL_IAS15"})]
+        ("mercurius", {}), ("mercurius", {"safe_mode": 0}), ("trace", {"peri_mode": "FULL_BS"}), ("trace", {"peri_mode": "PARTIAL_BS"}), ("trace", {"peri_mode": "FULL_IAS15"}),
+        # the force routine is an option of its own: compensated summation under the schemes that ask it to leave terms out, plain summation under IAS15
+        ("whfast", {"coordinates": "democraticheliocentric", "gravity": "compensated"}), ("whfast", {"coordinates": "whds", "gravity": "compensated", "safe_mode": 0}),
+        ("whfast", {"gravity": "compensated", "corrector": 5}), ("saba", {"gravity": "compensated"}), ("leapfrog", {"gravity": "compensated"}), ("ias15", {"gravity": "basic"})]
 
 
 def system(kind, rng, units=True, gidx=None):
@@ -86,7 +89,10 @@ def conservation(res, classes, rng, tier):
             sim.integrator = name
             ri = getattr(sim, "ri_" + name, None)
             for k, v in opts.items():
-                setattr(ri, k, v)
+                if k == "gravity":
+                    sim.gravity = v
+                else:
+                    setattr(ri, k, v)
             sim.dt = (0.02 if kind == "eccentric" else 0.03) / math.sqrt(sim.G)       # the same fraction of an orbit in every unit system
             M = sum(p.m for p in sim.particles)
             P0 = [sum(p.m * getattr(p, c) for p in sim.particles) for c in ("vx", "vy", "vz")]
@@ -160,7 +166,10 @@ def momentum_probe(res, rng):
         sim.integrator = name
         ri = getattr(sim, "ri_" + name, None)
         for k, v in opts.items():
-            setattr(ri, k, v)
+            if k == "gravity":
+                sim.gravity = v
+            else:
+                setattr(ri, k, v)
         sim.dt = 0.11
         M = sum(p.m for p in sim.particles)
         P0 = [sum(p.m * getattr(p, c) for p in sim.particles) for c in ("vx", "vy", "vz")]
